@@ -321,9 +321,9 @@ def run_check(prop, tier, seed=None, workers=None, out=sys.stdout):
                 grace_until = now + float(cfg.get('grace', 45))
             if truncated and pending and now > grace_until:
                 # chunks still running long after the cap: give up on them (no verdict from them);
-                # a single-process task gets ten more minutes, then its loss is a harness error
+                # a single-process task gets five more minutes, then its loss is a harness error
                 tasks_left = [g for g in pending if futs[g][0].startswith('task:')]
-                if tasks_left and now < grace_until + 600:
+                if tasks_left and now < grace_until + 300:
                     continue
                 if tasks_left:
                     harness_problem = 'task %s did not finish' % [futs[g][0] for g in tasks_left]
